@@ -1189,13 +1189,17 @@ func (e *Evaluator) evalPatternRules(patternRules []*Rule) error {
 
 	switch e.root.Value.Tag {
 	case ValueArray:
+		// $index exists only while the elements of an array root are processed:
+		// for any other root, and in ENDFILE and END rules, it is unknown again
 		for i, item := range e.root.Value.Array {
 			e.ruleRoot = item
 			e.stackTop.locals["$index"] = NewCell(NewValue(i))
 			if err := e.evalRules(patternRules); err != nil {
+				delete(e.stackTop.locals, "$index")
 				return err
 			}
 		}
+		delete(e.stackTop.locals, "$index")
 	case ValueObj:
 		e.ruleRoot = e.root
 		if err := e.evalRules(patternRules); err != nil {
